@@ -69,7 +69,7 @@ func main() {
 	r.SetRule("all ordered pairs (A,B), A!=B, of 10 registered stream methods (producer, producer+header, exchange, exchange+header, second name for the same state type, second state type, dynamic-as-producer, dynamic-as-exchange) x token age 0..K legit turns on A x continuation kind {route's natural data/tick, cancel} x {cache hit on minting instance, cache disabled, other instance sharing the key, sticky-enabled instance}; thorough adds A's cursor paired with B's call token and random identities/args; distinct = (A,B,age,cont,config,variant); trivial = none")
 	r.Require("control-accepted", "foreign-presented", "pair:other-interface", "pair:same-interface", "pair:same-state-type",
 		"cont:data", "cont:tick", "cont:cancel", "config:hit", "config:miss-nocache", "config:other-instance", "config:sticky",
-		"rehydrate:logging", "rehydrate:strict-assert", "rehydrate:strict-error")
+		"rehydrate:logging", "rehydrate:strict-assert", "rehydrate:strict-error", "route:non-stream-or-unknown")
 	r.Assume("in-process ServeHTTP on httptest.ResponseRecorder stands for a connection: a panic escaping ServeHTTP is what net/http turns into an aborted connection")
 	r.Assume("requests are issued sequentially per instance, so service events between request start and return belong to that request")
 
@@ -232,6 +232,36 @@ func main() {
 								r.Violation(sig, what, mkWitness())
 							}
 						}
+					}
+				}
+			}
+		}
+	}
+	// Domain audit: the continuation route exists for EVERY method name, also
+	// for unary methods and names that are not registered at all.
+	{
+		insts := mk()
+		in := insts[0]
+		for _, A := range we.Methods {
+			o := in.Init(A.Name, ids[1], 3, "route-"+A.Name, nil)
+			if !o.Accepted() {
+				r.Fatal("init of %s failed", A.Name)
+			}
+			for _, route := range []string{"open_session", "use_session", "nosuch", "PROD", "prod%20", "__describe__", "__upload_url__"} {
+				for _, form := range []string{"data", "tick", "cancel"} {
+					c := we.Cont{Method: route, ID: ids[1], Cursor: o.Cursor, Call: o.Call, Val: 1, Tick: form != "data", Cancel: form == "cancel"}
+					obs := in.Continue(c)
+					r.Case(fmt.Sprintf("route|%s|%s|%s", A.Name, route, form))
+					r.Class("route:non-stream-or-unknown")
+					bad := obs.Panic != "" || !obs.Refused4xx()
+					for _, e := range obs.Events {
+						if e.Actor == "state" || e.Actor == "rehydrate" {
+							bad = true
+						}
+					}
+					if bad {
+						r.Violation(fmt.Sprintf("xmethod:non-stream-route:%s", form), fmt.Sprintf("tokens minted by %s presented at /%s/exchange (%s): %s panic=%q events=%s", A.Name, route, form, obs.Refusal(), obs.Panic, obs.EventKinds()),
+							map[string]any{"minted_by": A.Name, "route": route, "form": form, "cursor": string(o.Cursor), "call": string(o.Call), "obs": obs})
 					}
 				}
 			}
